@@ -82,7 +82,7 @@ def run(chk):
         chk.touched(b)
         from .c01 import body_consts
         uses_d = False
-        for nb0 in p.nested(b.path):
+        for nb0 in p.nested_of(b):
           for nb in [nb0] + nb0.promoted:
             for bb, s in nb.stmts():
                 if s["k"] == "assign" and s["rv"]["k"] == "agg" and s["rv"].get("adt", "").endswith("Ec2KeyParameter") and s["rv"]["variant"] == "D":
@@ -105,8 +105,9 @@ def run(chk):
             bb2, i2, rv2 = pkc[0]
             c = {k: flow.simplify_term(Tc.operand(o, bb2, i2)) for k, o in zip(rv2["fields"], rv2["ops"])}
             site = where(au, line=au.blocks[bb]["stmts"][i]["line"])
-            cj = a["client_data_json"]
-            chk.ob("R1 client data", "R1|Client::authenticate|returned-json-is-hashed-json", json_term is not None and cj == json_term, site, "returned clientDataJSON is the hashed string: %s" % (json_term is not None and cj == json_term))
+            cj = _Nm.norm(a["client_data_json"])
+            same_json = json_term is not None and cj == _Nm.norm(json_term)
+            chk.ob("R1 client data", "R1|Client::authenticate|returned-json-is-hashed-json", same_json, site, "returned clientDataJSON is the hashed string: %s" % same_json)
             resp_t = find(a["authenticator_data"], lambda x: isinstance(x, tuple) and len(x) == 2 and x[0] == "payload" and has(x, lambda y: is_call(y, "Authenticator::get_assertion")))
             okad = is_call(a["authenticator_data"], "AuthenticatorData::to_vec") and a["authenticator_data"][2][0] == ("field", resp_t, "auth_data")
             chk.ob("R3 client", "R3|Client::authenticate|authenticatorData", bool(okad), site, "authenticatorData = %s" % flow.term_str(a["authenticator_data"])[:160])
